@@ -275,6 +275,10 @@ func (lb *LoadBalancer) setupCircuitBreaker(cfg *config.Config) {
 	if cbSettings.SuccessThreshold == 0 {
 		cbSettings.SuccessThreshold = 1
 	}
+	// The half-open trial budget must allow success_threshold successes
+	if cbSettings.MaxRequests < cbSettings.SuccessThreshold {
+		cbSettings.MaxRequests = cbSettings.SuccessThreshold
+	}
 
 	lb.circuitBreaker = circuitbreaker.NewCircuitBreaker(cbSettings)
 	logging.L().Info().Uint32("failure_threshold", cbSettings.FailureThreshold).Msg("circuit breaker enabled")
